@@ -163,7 +163,7 @@ class NeuronProbe:
     NeuronCore vocabulary (category mode)."""
 
     def __init__(self, cls, shape, batch, D, R, tick, lock, adapt, params, lax, batch_reduction=None,
-                 module=None, dt_built=None):
+                 module=None, dt_built=None, f64=False):
         self.cls, self.shape, self.batch = cls, tuple(shape), batch
         self.D, self.R, self.tick, self.lock, self.adapt, self.lax = D, R, float(tick), lock, adapt, lax
         self.dt = D * self.tick
@@ -178,6 +178,10 @@ class NeuronProbe:
             # with the step time the neuron reports (constants derived from dt must follow the setter)
             self.n = build(cls, shape, batch, dt_built, self.refrac_t, params, batch_reduction)
             self.n.dt = self.dt
+        if f64:
+            # the whole group moved to double precision through Module.to: the step contract (and the spike flag derived
+            # from the refractory state) must hold as it does in single precision
+            self.n = self.n.to(torch.float64)
         self.E = batch * int(math.prod(self.shape))
         self.nan_seen = False
 
@@ -312,7 +316,7 @@ class NeuronProbe:
                     continue
             v[e] = float(np.float32(pick))
             out.append((e, float(v[e])))
-        self.n.voltage = torch.tensor(v, dtype=torch.float32).reshape((self.batch,) + self.shape)
+        self.n.voltage = torch.tensor(v, dtype=self.n.voltage.dtype).reshape((self.batch,) + self.shape)
         return out
 
     def apply_pokes(self, pokes):
@@ -321,7 +325,7 @@ class NeuronProbe:
         v = self.voltages()
         for e, val in pokes:
             v[e] = val
-        self.n.voltage = torch.tensor(v, dtype=torch.float32).reshape((self.batch,) + self.shape)
+        self.n.voltage = torch.tensor(v, dtype=self.n.voltage.dtype).reshape((self.batch,) + self.shape)
 
     def step(self, inputs: torch.Tensor, freeze: str | None = None):
         """one forward() call; returns the per-element events (or None once a NaN was seen:
@@ -329,6 +333,7 @@ class NeuronProbe:
         adaptations frozen for this call: "false" passes adapt=False, "eval" switches the module to eval mode and
         passes adapt=None (the threshold in force is still equilibrium + current adaptations)."""
         n, cls = self.n, self.cls
+        inputs = inputs.to(n.voltage.dtype)
         v0 = self.voltages()
         r0 = self.refracs()
         th = self.thresholds()
